@@ -53,7 +53,16 @@ def gate(R, prog, crate, env):
     reach = c.with_removed(edges).settle().T.reach
     early = [o for o in storage_ops_deep(prog, c, env.depth) if o["kind"] == "w" and o["root_bb"] in reach] + [bi for bi, t, a in call_sites(c, lambda nm: nm.startswith("cw2::set_contract_version")) if bi in reach]
     R.ob("C18.R1", crate + ":no-write-before-name-gate", not early, "storage is written before / without the contract-name check", fn=key)
-    ver = lambda which: (lambda t: t[0] == "payload" and any(s_[0] == "call" and s_[1] == "core::str::parse" and which(s_[2][0]) for s_ in subterms(t)))
+    from engine.analysis import forms
+
+    def ver(which):
+        # Ok value of <which>.parse::<Version>() — directly or through a local parsing helper
+        def f(t):
+            if t[0] != "payload":
+                return False
+            return any(any(s_[0] == "call" and s_[1] == "core::str::parse" and which(s_[2][0]) for s_ in subterms(tf)) for tf in forms(prog, t, 2))
+        return f
+
     v_stored = ver(lambda x: x[0] == "field" and x[2] == "version" and stored(x[1]))
     v_new = ver(lambda x: x[0] == "item" and x[1].endswith("CONTRACT_VERSION"))
     out, n = ordering_outcomes(c, v_stored, v_new)
@@ -61,18 +70,7 @@ def gate(R, prog, crate, env):
     R.ob("C18.R1", crate + ":version-gate", n >= 1 and out == {"<": True, "=": False, ">": False}, "success reachable per ordering of (stored version ? new version): %s from %d comparison(s); required: only `<` continues (downgrade and same-version rejected)" % (out, n), fn=key)
     # writes are behind the version comparisons too: in the worlds '=' and '>' no write is reachable
     for o in ("=", ">"):
-        rem = set()
-        for bi, atom in c.atoms():
-            if atom[0] != "bool":
-                continue
-            rel = cmp_rel(atom[1], v_stored, v_new)
-            if rel is None:
-                continue
-            val = o in rel
-            for tg in atom[2][not val]:
-                if tg not in atom[2][val]:
-                    rem.add((bi, tg))
-        w = c.with_removed(rem).settle()
+        w = ordering_world(c, v_stored, v_new, o)
         wr = [x for x in storage_ops_deep(prog, w, env.depth) if x["kind"] == "w"] + [bi for bi, t, a in call_sites(w, lambda nm: nm.startswith("cw2::set_contract_version"))]
         R.ob("C18.R1", "%s:refused-migration-writes-nothing:%s" % (crate, o), not wr, "storage writes reachable although stored version %s new version" % o, fn=key)
     return c
@@ -99,10 +97,17 @@ def run(R, env):
     variants = enum_variants(prog, "staking::msg::MigrateMsg")
     R.floor("C18.R2", "MigrateMsg variants", len(variants), 3)
     arms = {}
-    for bi, atom in c.atoms():
-        if atom[0] == "variant" and (atom[3] or "").endswith("MigrateMsg"):
-            for v, tgs in atom[2].items():
-                arms[v] = tgs
+    dc, dpath = c, ()
+    from engine.analysis import inline_walk
+    # the dispatch on the MigrateMsg may sit in migrate itself or in a local helper it calls
+    for c_, path_ in inline_walk(prog, c, 2):
+        for bi, atom in c_.atoms():
+            if atom[0] == "variant" and (atom[3] or "").endswith("MigrateMsg") and not arms:
+                dc, dpath = c_, path_
+                for v, tgs in atom[2].items():
+                    arms[v] = tgs
+        if arms:
+            break
     migs = {}
     for v in variants:
         R.ob("C18.R2", "dispatched:" + v, v in arms, "variant has no arm in migrate", fn=key)
@@ -115,21 +120,21 @@ def run(R, env):
             if x in seen:
                 continue
             seen.add(x)
-            t = c.body.blocks[x]["term"]
+            t = dc.body.blocks[x]["term"]
             if t["k"] == "call" and t.get("rkey") in prog.bodies and prog.bodies[t["rkey"]].kind == "fn" and t.get("local"):
                 hit.append((x, t))
                 continue
             if t["k"] == "switch" and x not in arms[v]:
                 continue
-            st.extend(c.body.succs()[x])
+            st.extend(dc.body.succs()[x])
         R.ob("C18.R2", "one-migration:" + v, len(hit) == 1, "variant reaches %d migration functions" % len(hit), fn=key)
         if len(hit) != 1:
             continue
         bb, t = hit[0]
         mb = prog.bodies[t["rkey"]]
-        idx = len(c.body.blocks[bb]["stmts"])
-        mc = Ctx(mb, params={i + 1: c.T.operand(a, bb, idx) for i, a in enumerate(t["args"])})
-        migs[v] = (mc, bb)
+        idx = len(dc.body.blocks[bb]["stmts"])
+        mc = Ctx(mb, params={i + 1: dc.T.operand(a, bb, idx) for i, a in enumerate(t["args"])})
+        migs[v] = (mc, dpath[0][1] if dpath else bb)
         m = re.match(r"V(\d+)_(\d+)_(\d+)To", v)
         want = "%s.%s.%s" % m.groups() if m else None
         seen_v = []
@@ -196,7 +201,11 @@ def run(R, env):
             if old is None or v[0] != "agg":
                 R.ob("C18.R4", ns + ":record", False, "unrecognised record %s" % fmt(v)[:120], loc=o["loc"], fn=mk)
                 continue
-            am, den = shared.coin_parts(agg_field(v, "amount") or ("none",))
+            from engine.analysis import forms
+            for af in forms(prog, agg_field(v, "amount") or ("none",), 2):
+                am, den = shared.coin_parts(af)
+                if am is not None and den is not None:
+                    break
             good = am is not None and same(am, ("field", old, "amount")) and shared.ibc_denom(prog, den) and staker(agg_field(v, "receiver") or ("none",))
             if ns == "inflight":
                 good = good and same(agg_field(v, "sequence"), ("field", old, "sequence")) and same(agg_field(v, "status"), ("field", old, "status"))
@@ -296,6 +305,13 @@ def pair_loop(mc, o):
     nexts = [s_ for s_ in subterms(key) if s_[0] == "call" and s_[1].endswith("Iterator::next")]
     if not nexts:
         return False
+    if o.get("path") and o["path"][-1][2] == "closure" and len(o["path"]) == 1:
+        # closure form: the save sits in the closure given to for_each / try_for_each over the
+        # collected vector, on every success path of that closure (an Err aborts the migration)
+        from engine.analysis import must_pass, Ctx as _C
+        cb = body.prog.body(o["fn"])
+        drivers = [a for bi, t, a in call_sites(mc, lambda nm: nm.endswith(("Iterator::for_each", "Iterator::try_for_each"))) if len(a) == 2 and a[1][0] == "closure" and a[1][1] == o["fn"] and norm(a[0]) == norm(nexts[0][2][0])]
+        return cb is not None and len(drivers) == 1 and must_pass(_C(cb), o["bb"])
     heads = [bi for bi, t, a in call_sites(mc, lambda nm: nm == "std::iter::Iterator::next") if norm(mc.T.call_term(t, bi)) == norm(nexts[0])]
     if len(heads) != 1:
         return False
